@@ -93,6 +93,26 @@ def make_cells(rng, full):
     return cells
 
 
+def racy_cells(start_id, repeats):
+    """Cells whose two fids on node a (and a/b) are created by walks that meet inside the backend
+    and return together, so that both look the path node up for the first time at the same moment
+    (pathNodeFor); the plans and the expected exclusion are the ordinary ones of PathLocks.tla,
+    which has ONE lock per path."""
+    cells = []
+    cid = start_id
+    combos = [("write", "setattr", "SetAttr", "write", "setattr", "SetAttr"), ("write", "setattr", "SetAttr", "read", "getattr", "GetAttr"),
+              ("write", "mkdir", "Mkdir", "write", "symlink", "Symlink"), ("write", "mkdir", "Mkdir", "read", "getattr", "GetAttr")]
+    for rep in range(repeats):
+        for n in (2, 3):
+            for (pa, aop, ahold, pb, bop, bhold) in combos:
+                for cross in (False, True):
+                    cid += 1
+                    cells.append({"id": cid, "racy": True, "cross": cross,
+                                  "a": {"p": pa, "n": n, "e": 0, "op": aop, "k": "", "hold": ahold, "holdidx": 1, "i": 3},
+                                  "b": {"p": pb, "n": n, "e": 0, "op": bop, "k": "", "hold": bhold, "holdidx": 1, "i": 3}})
+    return cells
+
+
 def run(prop, tier, seed, rule):
     t0 = time.time()
     verdict = vlib.Verdict(prop)
@@ -118,12 +138,21 @@ def run(prop, tier, seed, rule):
         states += r.get("distinct", 0)
         transitions += r.get("generated", 0)
         runs.append({"config": "3 handlers, safety", "distinct": r.get("distinct"), "generated": r.get("generated"), "wall_s": round(r["wall_s"], 1)})
+        # 1b. one path node (one opMu) per path also under concurrent first-time lookups
+        r = vlib.run_tlc(s, "NodeFor", "\n".join(["SPECIFICATION Spec", "CONSTANTS", "  Callers = {1, 2, 3}", '  Names = {"a", "b"}',
+                                                  "INVARIANTS OneNodePerName SameNameSameNode", "CHECK_DEADLOCK FALSE", ""]), name="nodefor")
+        if "violated" in r:
+            raise Inconclusive("NodeFor.tla violates " + r["violated"])
+        states += r.get("distinct", 0)
+        transitions += r.get("generated", 0)
+        runs.append({"config": "NodeFor: 3 callers, 2 names", "distinct": r.get("distinct"), "generated": r.get("generated")})
         # 2. the may-overlap matrix
         mfile = os.path.join(s, "matrix.ndjson")
         vlib.run_tlc(s, "MC_PathLocks", cfg(2, PLANS, fixed, ["Pairs"], loop=False), workers=1, env={"GEN_OUT": mfile}, name="matrix")
         matrix = load_matrix(mfile)
         # 3. rendezvous experiments
         cells = make_cells(rng, tier == "thorough")
+        cells += racy_cells(max(c["id"] for c in cells), 3 if tier == "quick" else 12)
         cfile = os.path.join(s, "cells.json")
         json.dump(cells, open(cfile, "w"))
         results, traces = run_pairs(s, cfile, "120ms")
